@@ -2,11 +2,17 @@
 // SPDX-License-Identifier: GPL-2.0-only
 
 use clock_bound_shm::common::{clock_gettime_safe, CLOCK_MONOTONIC};
+#[cfg(clock_bound_verif)]
+use crate::verif::blocking_query_uds;
+#[cfg(not(clock_bound_verif))]
 use chrony_candm::blocking_query_uds;
 use chrony_candm::reply::{ReplyBody, Tracking};
 use chrony_candm::request::RequestBody;
 use chrony_candm::ClientOptions;
 use std::io::Read;
+#[cfg(clock_bound_verif)]
+use crate::verif::mpsc;
+#[cfg(not(clock_bound_verif))]
 use std::sync::mpsc;
 use std::time::{Duration, Instant};
 use tracing::{debug, error, info};
@@ -113,6 +119,10 @@ fn run_clock_error_bound_poller(
 
     // Keep on running forever until we receive the instruction to stop.
     while keep_running {
+        #[cfg(clock_bound_verif)]
+        if crate::verif::fault_point("poller:loop") == crate::verif::FaultAction::Return {
+            return;
+        }
         // First, make sure we take a MONOTONIC timestamp *before* getting chronyd data. This will
         // slightly inflate the dispersion component of the clock error bound but better be
         // pessimistic and correct, than greedy and wrong. The actual error added here is expected
@@ -187,6 +197,10 @@ fn run_clock_error_bound_poller(
 /// Entry point to this thread.
 pub fn run(ctx: Context, phc_info: Option<PhcInfo>) {
     info!("Starting chronyd polling thread");
+    #[cfg(clock_bound_verif)]
+    if crate::verif::fault_point("poller:start") == crate::verif::FaultAction::Return {
+        return;
+    }
     let poller = ClockErrorBoundPoller::default();
     let sleep = Duration::from_millis(1000);
     run_clock_error_bound_poller(ctx, poller, phc_info, sleep);
@@ -208,12 +222,47 @@ fn get_phc_error_bound_from_path(
         .expect("Could not parse error bound value to i64"))
 }
 
+/// Entry points for the verification harness (the items they reach are private to this module).
+#[cfg(clock_bound_verif)]
+pub mod verif_api {
+    use super::*;
+
+    /// The real poller state (time of the last good answer from chronyd), kept by the harness
+    /// across invocations of the polling loop.
+    pub struct Poller(ClockErrorBoundPoller);
+
+    impl Default for Poller {
+        fn default() -> Self {
+            Poller(ClockErrorBoundPoller::default())
+        }
+    }
+
+    struct PollerRef<'a>(&'a mut ClockErrorBoundPoller);
+
+    impl ChronyOperations for PollerRef<'_> {
+        fn get_tracking(&mut self) -> Option<Tracking> {
+            self.0.get_tracking()
+        }
+        fn is_within_grace_period(&self) -> bool {
+            self.0.is_within_grace_period()
+        }
+    }
+
+    /// Run the real polling loop on a poller whose state outlives the call.
+    pub fn run_poller(ctx: Context, poller: &mut Poller, phc_info: Option<PhcInfo>, sleep: Duration) {
+        run_clock_error_bound_poller(ctx, PollerRef(&mut poller.0), phc_info, sleep)
+    }
+}
+
 #[cfg(test)]
 mod t_chrony_poller {
     use chrony_candm::common::ChronyAddr;
     use chrony_candm::reply::Tracking;
     use std::collections::VecDeque;
     use std::io::Write;
+    #[cfg(clock_bound_verif)]
+    use crate::verif::mpsc::Receiver;
+    #[cfg(not(clock_bound_verif))]
     use std::sync::mpsc::Receiver;
     use std::time::SystemTime;
 
